@@ -15,6 +15,11 @@
                           working-precision figure when it is set (non-zero), the presented one otherwise
      cat_precise t code   the rational PreciseAmount() of category [code] denotes (0 without the category);
      cat_precise_field t code   the same for the raw unexported field ct_precise
+     wf_shape t           the same without any precision: codes distinct, groups of a category pairwise
+                          non-matching, exempt groups without surcharge rate, no surcharge amount without
+                          surcharge rate; every wf_tt c t is a wf_shape t (summary_shape)
+     group_baseQ/amountQ/suramountQ, cat_amountQ, cat_surchargeQ (0 when absent), has_surcharge
+                          the same lookups as rationals, for operands of different precisions
    The model is purely functional: neither Merge nor Negate can alter an operand, so that clause of the
    property (Merge copies the operand's rows instead of sharing them) is checked on the Go side only
    (harness/c20.go, tools/props/c20.py). *)
@@ -50,6 +55,41 @@ Print Assumptions merge_componentwise.
 
 Example wf_summaries_exist : wf_tt 2 ex_tt /\ wf_tt 2 ex_tt2 /\ has_group ex_tt ex_code ex_rt = true.
 Proof. exact (conj ex_tt_wf (conj ex_tt2_wf eq_refl)). Qed.
+
+(* operands of any precisions (a payment settling a JPY and a EUR document): every presented figure is
+   the exact sum, at the finer of the two precisions - nothing is rounded away.  The theorem above is the
+   special case of one precision, stated in units of 10^-c. *)
+Theorem summary_shape c t : wf_tt c t -> wf_shape t.
+Proof. exact (wf_tt_shape c t). Qed.
+Print Assumptions summary_shape.
+
+Theorem merge_exact_for_any_precision t1 t2 : wf_shape t1 -> wf_shape t2 ->
+  let m := tt_merge t1 t2 in
+  wf_shape m /\
+  (forall code key,
+     group_baseQ m code key == group_baseQ t1 code key + group_baseQ t2 code key /\
+     group_amountQ m code key == group_amountQ t1 code key + group_amountQ t2 code key /\
+     group_suramountQ m code key == group_suramountQ t1 code key + group_suramountQ t2 code key /\
+     has_group m code key = has_group t1 code key || has_group t2 code key) /\
+  (forall code,
+     cat_amountQ m code == cat_amountQ t1 code + cat_amountQ t2 code /\
+     cat_surchargeQ m code == cat_surchargeQ t1 code + cat_surchargeQ t2 code /\
+     has_surcharge m code = has_surcharge t1 code || has_surcharge t2 code /\
+     has_cat m code = has_cat t1 code || has_cat t2 code) /\
+  toQ (tt_sum m) == toQ (tt_sum t1) + toQ (tt_sum t2) /\
+  exp (tt_sum m) = Nat.max (exp (tt_sum t1)) (exp (tt_sum t2)).
+Proof. exact (MergeProofs.merge_exact_for_any_precision t1 t2). Qed.
+Print Assumptions merge_exact_for_any_precision.
+
+Example different_precisions_exist :
+  wf_shape ex_jpy /\ wf_shape ex_eur /\ exp (tt_sum ex_jpy) <> exp (tt_sum ex_eur) /\
+  group_baseQ (tt_merge ex_jpy ex_eur) ex_code (ex_rt10 (mkA 0 0) (mkA 0 0)) == 110055 # 100 /\
+  group_baseQ (tt_merge ex_eur ex_jpy) ex_code (ex_rt10 (mkA 0 0) (mkA 0 0)) == 110055 # 100.
+Proof.
+  exact (conj (wf_tt_shape _ _ ex_jpy_wf) (conj (wf_tt_shape _ _ ex_eur_wf)
+        (conj (fun H : 0%nat = 2%nat => O_S _ H)
+        (conj (proj1 merge_different_precisions_example) (proj1 (proj2 merge_different_precisions_example)))))).
+Qed.
 
 (* any sequence of merges, as a payment performs over its lines *)
 Theorem merge_all_componentwise c ts : Forall (wf_tt c) ts -> forall t, wf_tt c t ->
@@ -120,6 +160,23 @@ Theorem merge_comm_up_to_order c t1 t2 : wf_tt c t1 -> wf_tt c t2 ->
   val (tt_sum a) = val (tt_sum b) /\ exp (tt_sum a) = exp (tt_sum b).
 Proof. exact (MergeProofs.merge_comm_up_to_order c t1 t2). Qed.
 Print Assumptions merge_comm_up_to_order.
+
+Theorem merge_order_independent_for_any_precision t1 t2 : wf_shape t1 -> wf_shape t2 ->
+  let a := tt_merge t1 t2 in
+  let b := tt_merge t2 t1 in
+  (forall code key,
+     group_baseQ a code key == group_baseQ b code key /\
+     group_amountQ a code key == group_amountQ b code key /\
+     group_suramountQ a code key == group_suramountQ b code key /\
+     has_group a code key = has_group b code key) /\
+  (forall code,
+     cat_amountQ a code == cat_amountQ b code /\
+     cat_surchargeQ a code == cat_surchargeQ b code /\
+     has_surcharge a code = has_surcharge b code /\
+     has_cat a code = has_cat b code) /\
+  toQ (tt_sum a) == toQ (tt_sum b) /\ exp (tt_sum a) = exp (tt_sum b).
+Proof. exact (MergeProofs.merge_order_independent_for_any_precision t1 t2). Qed.
+Print Assumptions merge_order_independent_for_any_precision.
 
 Theorem merge_precise_comm t1 t2 : distinct_codes (tt_cats t1) -> distinct_codes (tt_cats t2) ->
   (forall code, cat_precise_field (tt_merge t1 t2) code == cat_precise_field (tt_merge t2 t1) code) /\
@@ -197,6 +254,20 @@ Theorem merge_precise_shipped_refuted :
     ~ toQ (tt_PreciseSum (tt_merge_precise_shipped t2 t1)) == toQ (tt_PreciseSum t2) + toQ (tt_PreciseSum t1).
 Proof. exact MergeProofs.merge_precise_shipped_refuted. Qed.
 Print Assumptions merge_precise_shipped_refuted.
+
+(* Merge with the presented figures as shipped (x.Add(y) rounds the right operand to the left one's
+   decimals): JPY {10% of 1000 = 100} merged with EUR {10% of 100.55 = 10.06} has base 1101 in this order
+   and 1100.55 in the other *)
+Theorem merge_different_precisions_shipped_refuted :
+  exists c1 c2 t1 t2 code key, wf_tt c1 t1 /\ wf_tt c2 t2 /\
+    group_baseQ (tt_merge_rounding_shipped t1 t2) code key == 1101 # 1 /\
+    group_baseQ (tt_merge_rounding_shipped t2 t1) code key == 110055 # 100 /\
+    ~ group_baseQ (tt_merge_rounding_shipped t1 t2) code key == group_baseQ t1 code key + group_baseQ t2 code key /\
+    ~ group_amountQ (tt_merge_rounding_shipped t1 t2) code key == group_amountQ (tt_merge_rounding_shipped t2 t1) code key /\
+    ~ cat_amountQ (tt_merge_rounding_shipped t1 t2) code == cat_amountQ t1 code + cat_amountQ t2 code /\
+    ~ toQ (tt_sum (tt_merge_rounding_shipped t1 t2)) == toQ (tt_sum t1) + toQ (tt_sum t2).
+Proof. exact MergeProofs.merge_different_precisions_shipped_refuted. Qed.
+Print Assumptions merge_different_precisions_shipped_refuted.
 
 (* a correctly calculated summary (fixed point of the repaired Calculate) changes under the shipped
    Calculate, and changes again at every further recalculation *)
